@@ -181,7 +181,7 @@ def build_rcell(sp):
 
 
 DAG_OPS = ['to_boc', 'to_boc_idx_crc', 'to_boc_cache', 'order', 'order_arg', 'from_boc_own', 'from_boc_ref', 'copy', 'hash_eq', 'walk', 'to_builder', 'slice_to_cell', 'wrap', 'repr_hash',
-           'slice_from_boc', 'store_cell', 'slice_from_cell', 'slice_copy', 'store_slice']
+           'slice_from_boc', 'store_cell', 'slice_from_cell', 'slice_copy', 'store_slice', 'eq_inner', 'pair_to_boc', 'parsed_twice']
 
 
 class St:
@@ -317,6 +317,41 @@ class WorkWorld(World):
             return lambda: Builder().store_slice(root.begin_parse()).end_cell()
         if what == 'repr_hash':
             return lambda: root.calculate_representation_hash()
+        if what == 'eq_inner':
+            # equal cells held as distinct objects (built twice), compared below the root where levels are non-zero
+            other = aux['twin']
+
+            def eq_inner():
+                a, b, k = root, other, 0
+                res = []
+                while k < 6:
+                    res.append((a == b, {a: 1}.get(b), a in [b], hash(a) == hash(b)))
+                    if not a.refs or not b.refs:
+                        break
+                    a, b = a.refs[-1], b.refs[-1]
+                    k += 1
+                return res
+            return eq_inner
+        if what == 'pair_to_boc':
+            # one tree holding two equal copies that are distinct objects: n distinct cells, serialised once
+            other = aux['twin']
+            return lambda: Cell.one_from_boc(Builder().store_ref(root).store_ref(other).end_cell().to_boc(has_idx=False))
+        if what == 'parsed_twice':
+            data = aux['ref']
+
+            def parsed_twice():
+                a = Cell.one_from_boc(data)
+                b = Cell.one_from_boc(data)
+                r = [a == b, {a: 0, b: 1}]
+                x, y = a, b
+                for _ in range(4):
+                    if not x.refs:
+                        break
+                    x, y = x.refs[0], y.refs[0]
+                    r.append(x == y)
+                r.append(Builder().store_ref(a).store_ref(b).end_cell().to_boc())
+                return r
+            return parsed_twice
         raise AssertionError(what)
 
     def _dag_measure(self, ctx, fam, n, seed, whats, ops_prefix, record):
